@@ -412,7 +412,10 @@ class TransportLayerLogic:
             if self.override_receiver_stmin is not None:
                 if not isinstance(self.override_receiver_stmin, (int, float)) or isinstance(self.override_receiver_stmin, bool):
                     raise ValueError('override_receiver_stmin must be a float')
-                self.override_receiver_stmin = float(self.override_receiver_stmin)
+                try:
+                    self.override_receiver_stmin = float(self.override_receiver_stmin)
+                except OverflowError:
+                    raise ValueError('Invalid override_receiver_stmin')
 
                 if self.override_receiver_stmin < 0 or not math.isfinite(self.override_receiver_stmin * 1e9):
                     raise ValueError('Invalid override_receiver_stmin')
@@ -473,7 +476,11 @@ class TransportLayerLogic:
             if self.rate_limit_window_size <= 0:
                 raise ValueError('rate_limit_window_size must be greater than 0')
 
-            if not math.isfinite(self.rate_limit_window_size) or not math.isfinite(self.rate_limit_max_bitrate * self.rate_limit_window_size):
+            try:
+                window_bits_finite = math.isfinite(self.rate_limit_window_size) and math.isfinite(self.rate_limit_max_bitrate * self.rate_limit_window_size)
+            except OverflowError:   # integers too large to be converted to float
+                window_bits_finite = False
+            if not window_bits_finite:
                 raise ValueError('rate_limit_window_size and the resulting window size in bits must be finite')
 
             if not isinstance(self.rate_limit_enable, bool):
